@@ -286,6 +286,8 @@ class Normaliser(object):
 
     def posargs(self, args):
         if getattr(args, 'posonlyargs', None):
+            for a in args.posonlyargs:
+                a._vf_posonly = True        # still positional-only as far as the *input* is concerned
             args.args = args.posonlyargs + args.args
             args.posonlyargs = []
 
